@@ -89,6 +89,8 @@ pub struct Ldap {
     pub timeout: Option<Duration>,
     pub controls: MaybeControls,
     pub search_opts: Option<SearchOptions>,
+    #[cfg(ldap3_verif)]
+    pub(crate) verif: Arc<crate::conn::VerifGauges>,
 }
 
 impl Clone for Ldap {
@@ -109,6 +111,8 @@ impl Clone for Ldap {
             timeout: None,
             controls: None,
             search_opts: None,
+            #[cfg(ldap3_verif)]
+            verif: self.verif.clone(),
         }
     }
 }
@@ -829,5 +833,27 @@ impl Ldap {
         {
             Ok(None)
         }
+    }
+}
+
+#[cfg(ldap3_verif)]
+impl Ldap {
+    /// Snapshot of the message ID table: (last issued ID, sorted IDs in use).
+    pub fn verif_id_table(&self) -> (RequestId, Vec<RequestId>) {
+        let msgmap = self.msgmap.lock().expect("msgmap mutex (verif)");
+        let mut ids: Vec<RequestId> = msgmap.1.iter().copied().collect();
+        ids.sort_unstable();
+        (msgmap.0, ids)
+    }
+
+    /// Position the ID counter, e.g. just below the wrap-around point.
+    pub fn verif_set_last_id(&self, id: RequestId) {
+        let mut msgmap = self.msgmap.lock().expect("msgmap mutex (verif)");
+        msgmap.0 = id;
+    }
+
+    /// Driver-side gauges shared with this handle.
+    pub fn verif_gauges(&self) -> Arc<crate::conn::VerifGauges> {
+        self.verif.clone()
     }
 }
